@@ -8,8 +8,13 @@ ROOT='/verif'
 muts=json.load(open(f'{ROOT}/mutants/list.json'))
 sel=sys.argv[1:]
 res=[]
+LOG=open('/verif/target/mutate.log','a')
 def sh(cmd, **kw):
-    return subprocess.run(cmd, shell=True, capture_output=True, text=True, **kw)
+    try:
+        return subprocess.run(cmd, shell=True, capture_output=True, text=True, timeout=1500, **kw)
+    except subprocess.TimeoutExpired as e:
+        subprocess.run('pkill -f /verif/target/release/vcheck', shell=True)
+        return subprocess.CompletedProcess(cmd, 124, stdout=(e.stdout or b'').decode() if isinstance(e.stdout, bytes) else (e.stdout or ''), stderr='')
 assert sh('git -C /repo status --porcelain').stdout.strip()=='' , 'repo dirty'
 for m in muts:
     if sel and not any(s in m['name'] for s in sel): continue
@@ -25,11 +30,11 @@ for m in muts:
             ok = r.returncode==1 and 'VIOLATION property='+p in r.stdout
             line=[l for l in r.stdout.splitlines() if l.startswith(('worker','extra','saved'))][:1]
             res.append((m['name'],p,'CAUGHT' if ok else f'MISSED(exit {r.returncode})', round(time.time()-t,1), (line[0][:200] if line else r.stdout[-300:])))
-            print(res[-1], flush=True)
+            print(res[-1], flush=True); LOG.write(repr(res[-1])+'\n'); LOG.flush()
         for p in m.get('silent',[]):
             r=sh(f'{ROOT}/check {p} --tier quick')
             res.append((m['name'],p,'silent-ok' if r.returncode==0 else f'FALSE-ALARM(exit {r.returncode})', r.stdout[-300:] if r.returncode else ''))
-            print(res[-1], flush=True)
+            print(res[-1], flush=True); LOG.write(repr(res[-1])+'\n'); LOG.flush()
     finally:
         open(path,'w').write(src)
         sh("cd /verif && git status --porcelain -uall replays | awk '/^\\?\\?/{print $2}' | xargs -r rm -f")
